@@ -216,7 +216,7 @@ def run_lines(exe, lines, timeout=1800, env=None):
     """feed op lines; returns (list of output lines, returncode, stderr-tail)"""
     data = ("\n".join(lines) + "\n").encode()
     e = dict(os.environ)
-    e["ASAN_OPTIONS"] = "detect_leaks=1:abort_on_error=0:exitcode=97:allocator_may_return_null=1"
+    e["ASAN_OPTIONS"] = "detect_leaks=1:abort_on_error=0:exitcode=97:allocator_may_return_null=1:hard_rss_limit_mb=6000:max_allocation_size_mb=3000"
     e["UBSAN_OPTIONS"] = "print_stacktrace=1:halt_on_error=1:exitcode=98"
     if env:
         e.update(env)
